@@ -21,7 +21,7 @@ Variable mt : nat -> option (G * list G).
 (* the grammar g, built under the recursive definitions E, is in the class *)
 Fixpoint wfm (g : G) (E : list G) {struct g} : Prop :=
   match g with
-  | End | Empty | Any | Just _ | OneOf _ | NoneOf _ | Select _ _ | Custom _ _ | JustCfg _ | Skip _ => True
+  | End | Empty | Any | Just _ | OneOf _ | NoneOf _ | Select _ _ | Custom _ _ | JustCfg _ | Skip _ | Prog _ _ => True
   | Var k => True
   | Map _ a | MapWith _ a | To _ a | Ignored a | ToSpan a | ToSlice a | Filter _ a | TryMap _ _ _ a
   | TryMapWith _ _ _ a | Validate _ _ a | OrNot a | Not a | Rewind a | Labelled _ _ a | MapErr _ a
@@ -45,6 +45,7 @@ with wfm_it (i : IT) (E : list G) {struct i} : Prop :=
   | IRep a _ _ | IOrNot a | IRepCfg a _ _ _ | IIntoIter a => wfm a E
   | ISep a s _ _ _ _ => wfm a E /\ wfm s E
   | IEnum j | IMap _ j | IMapWith _ j => wfm_it j E
+  | IThen i j => wfm_it i E /\ wfm_it j E
   end
 with wfm_op (o : pop) (E : list G) {struct o} : Prop :=
   match o with PInfix _ _ g _ | PPrefix _ g _ | PPostfix _ g _ => wfm g E end.
@@ -385,7 +386,7 @@ Lemma it_next_refines : forall i m ctx its s r its' s1,
   it_next spn run m i ctx its s = (r, its', s1) -> inv s -> TV (memo s) -> wfm_it mt i (crec ctx) -> WFc ctx ->
   npostm m s s1 r its' (it_snext toks spn srun i ctx its (cur s) (alt s)).
 Proof.
-  induction i as [a lo hi|a sep lo hi lead trail|j IHj|f j IHj|f j IHj|a|a lo hi ck|a];
+  induction i as [a lo hi|a sep lo hi lead trail|j IHj|f j IHj|f j IHj|a|a lo hi ck|a|i1 IHi1 i2 IHi2];
     intros m ctx its s r its' s1 H Hi HT Hg Hc; cbn [it_next it_snext] in *; simpl in Hg.
   - (* IRep *)
     destruct its; try (injection H as <- <- <-; exact I).
@@ -405,7 +406,7 @@ Proof.
     + destruct P as (v' & ems & -> & ?). exists v', ems. auto.
     + destruct P as (ext & c'' & -> & ?). exists ext, (SCount c''). auto.
   - (* IEnum *)
-    destruct its as [|k js| | | |]; try (injection H as <- <- <-; exact I).
+    destruct its as [|k js| | | | |]; try (injection H as <- <- <-; exact I).
     destruct (it_next spn run m j ctx js s) as [[r0 js'] s2] eqn:E.
     pose proof (IHj _ _ _ _ _ _ _ E Hi HT Hg Hc) as P.
     destruct r0; injection H as <- <- <-; cbn in *; auto; destruct P as (P & T); (split; [|exact T]).
@@ -428,14 +429,14 @@ Proof.
     + destruct P as (ext & c'' & -> & ?). exists ext, c''. auto.
   - (* IOrNot *)
     pose proof Hc as (He & Hcv).
-    destruct its as [| |fin| | |]; try (injection H as <- <- <-; exact I).
+    destruct its as [| |fin| | | |]; try (injection H as <- <- <-; exact I).
     destruct fin.
     + injection H as <- <- <-. split; [|exact HT]. exists []. rewrite app_nil_r. repeat split; auto.
     + destruct (run m a ctx s) as [r1 s2] eqn:E. use HR E. destruct r1; injection H as <- <- <-; try exact I.
       * ok_elim P. split; [|exact HT0]. exists v', ems. auto.
       * err_elim P. rewrite (rewind_save _ _ _ Hsec). split; [|exact HT0]. exists []. cbn. rewrite app_nil_r. repeat split; auto.
   - (* IRepCfg *)
-    destruct its as [| | |c clo chi|k|]; try (injection H as <- <- <-; exact I).
+    destruct its as [| | |c clo chi|k| |]; try (injection H as <- <- <-; exact I).
     + destruct (rep_next run m a clo chi ctx c s) as [[r0 c'] s2] eqn:E. injection H as <- <- <-.
       pose proof (rep_next_refines _ _ _ _ _ _ _ _ _ _ E Hi HT Hg Hc) as P.
       destruct r0; cbn in *; auto; destruct P as (P & T); (split; [|exact T]).
@@ -452,7 +453,7 @@ Proof.
       err_elim P. split; [|exact HT0]. exists ext, (SFail k). auto.
   - (* IIntoIter *)
     pose proof Hc as (He & Hcv).
-    destruct its as [| | | | |[l|]]; try (injection H as <- <- <-; exact I).
+    destruct its as [| | | | |[l|]|]; try (injection H as <- <- <-; exact I).
     + destruct l as [|x l]; injection H as <- <- <-; (split; [|exact HT]).
       * exists []. rewrite app_nil_r. repeat split; auto.
       * exists x, []. rewrite app_nil_r. repeat split; auto.
@@ -461,6 +462,29 @@ Proof.
         -- exists ems. repeat split; auto.
         -- exists x, ems. repeat split; auto.
       * injection H as <- <- <-. err_elim P. split; [|exact HT0]. exists ext, (SInto None). auto.
+  - (* IThen *)
+    destruct Hg as (Hg1 & Hg2).
+    destruct its as [| | | | | |sa [sb|]]; try (injection H as <- <- <-; exact I).
+    + destruct (it_next spn run m i2 ctx sb s) as [[r0 sb'] s2] eqn:E. injection H as <- <- <-.
+      pose proof (IHi2 _ _ _ _ _ _ _ E Hi HT Hg2 Hc) as P.
+      destruct r0; cbn in *; auto; destruct P as (P & T); (split; [|exact T]).
+      * destruct P as (ems & -> & ?). exists ems. auto.
+      * destruct P as (v' & ems & -> & ?). exists v', ems. auto.
+      * destruct P as (ext & c'' & -> & ?). exists ext, (SThen sa (Some c'')). auto.
+    + destruct (it_next spn run m i1 ctx sa s) as [[r0 sa'] s2] eqn:E.
+      pose proof (IHi1 _ _ _ _ _ _ _ E Hi HT Hg1 Hc) as P.
+      destruct r0; cbn [npostm npost] in P.
+      * destruct P as ((ems & Hs & Hsec & Hu) & T). rewrite Hs.
+        destruct (it_next spn run m i2 ctx (mk_iter i2 ctx) s2) as [[r1 sb'] s3] eqn:E2. injection H as <- <- <-.
+        pose proof (IHi2 _ _ _ _ _ _ _ E2 Hu T Hg2 Hc) as P2.
+        destruct r1; cbn in *; auto; destruct P2 as (P2 & T2); (split; [|exact T2]).
+        -- destruct P2 as (ems2 & -> & Hsec2 & Hu2). exists (ems ++ ems2). rewrite Hsec2, Hsec, app_assoc. auto.
+        -- destruct P2 as (v' & ems2 & -> & -> & Hsec2 & Hu2). exists v', (ems ++ ems2). rewrite Hsec2, Hsec, app_assoc. auto.
+        -- destruct P2 as (ext & c'' & -> & Hsec2). exists (ems ++ ext), (SThen sa' (Some c'')). rewrite Hsec2, Hsec, app_assoc. auto.
+      * injection H as <- <- <-. destruct P as ((v' & ems & -> & ?) & T). split; [|exact T]. exists v', ems. cbn. auto.
+      * injection H as <- <- <-. destruct P as ((ext & c'' & -> & ?) & T). split; [|exact T]. exists ext, (SThen c'' None). auto.
+      * injection H as <- <- <-. exact I.
+      * injection H as <- <- <-. exact I.
 Qed.
 
 Lemma drive_refines s0 : forall fuel m i ctx its lim pa idx acc s r acc' fl s1 sacc sacce,
@@ -780,10 +804,11 @@ End LoopLemmas.
 
 Lemma it_eager_wf ctx : forall i g E, wfm_it mt i E -> it_eager i ctx = Some g -> wfm mt g E.
 Proof.
-  induction i as [a lo hi|a sep lo hi lead trail|j IHj|f j IHj|f j IHj|a|a lo hi ck|a]; intros g E Hw H; cbn [it_eager] in H;
+  induction i as [a lo hi|a sep lo hi lead trail|j IHj|f j IHj|f j IHj|a|a lo hi ck|a|i1 IHi1 i2 IHi2]; intros g E Hw H; cbn [it_eager] in H;
     simpl in Hw; try discriminate; eauto.
   - destruct (cfg_fails ck (val_count (cval ctx))); [|discriminate]. injection H as <-. exact I.
   - injection H as <-. simpl. auto.
+  - destruct Hw as (Hw1 & _). eauto.
 Qed.
 
 Lemma prim_post m s r s1 x : post m s r s1 x -> memo s1 = memo s -> TV (memo s) -> postm m s r s1 x.
@@ -1016,7 +1041,7 @@ Proof.
       destruct r0; try trivial_res H'; inv_pair H'.
       - destruct E as ((sitems & ems & -> & _ & Hsec & Hu) & HT2). fin_ok.
       - destruct E as ((ext & -> & Hsec) & HT2). fin_err. }
-    destruct i as [a lo hi| | | | | | |]; try (eapply Hdrive; exact H).
+    destruct i as [a lo hi| | | | | | | |]; try (eapply Hdrive; exact H).
     destruct lo as [|lo]; [|eapply Hdrive; exact H].
     destruct hi as [hi|]; [eapply Hdrive; exact H|].
     eapply (rep_fast_refines _ _ IH s) with (c := 0) (sacc := []) (sacce := []) in H; eauto; [|now rewrite app_nil_r].
@@ -1235,6 +1260,12 @@ Proof.
     destruct r1; try trivial_res H.
     + inv_pair H. ok_elim P. cbn. fin_ok.
     + err_elim P. destruct (alt s2) as [[q e]|]; [|trivial_res H]. inv_pair H. cbn. fin_err.
+  - (* Prog *)
+    destruct (prog_loop toks spn ops (cur s) [] [] s) as [[b acc] s2] eqn:E.
+    destruct (prog_loop_refines _ _ _ _ _ _ _ _ _ _ _ E Hinv (Forall2_nil _)) as (Hp & Ha & Hsec & Hu & Hm). rewrite Hp.
+    destruct b; inv_pair H; (split; [|cbn [memo Machine.alt_err set_alt]; rewrite ?Hm; exact HT]).
+    + do 3 eexists. split; [rewrite Ha; reflexivity|]. rewrite Hsec, app_nil_r. repeat split; auto.
+    + exists []. cbn. rewrite Ha, Hsec, app_nil_r. split; reflexivity.
   - (* Padded *)
     destruct (skip_while_spec toks ws (length toks) s Hinv) as (Hc0 & Hs0 & Ha0 & Hm0 & Hi0).
     destruct (go n m g ctx (skip_while toks (length toks) ws s)) as [r1 s2] eqn:E.
